@@ -45,10 +45,11 @@ def edges(nd):
 
 DTYPES = ["int64", "float64", "float32", "complex128"]
 KINDS = ["concatenate", "stack", "reshape", "axis_permutation", "roll", "basic_index", "adv_index",
-         "einsum", "index_lambda"]
+         "einsum", "index_lambda", "sum", "where", "pad"]
+CTORS = ["zeros", "ones", "full", "arange", "eye"]
 
 
-VEC_KINDS = ("roll", "basic_index", "adv_index", "einsum", "index_lambda")
+VEC_KINDS = ("roll", "basic_index", "adv_index", "einsum", "index_lambda", "where")
 
 
 def spec_dtype(nodes, i, memo=None):
@@ -59,8 +60,10 @@ def spec_dtype(nodes, i, memo=None):
         return memo[i]
     nd = nodes[i]
     op = nd["op"]
-    if op in ("input", "data", "recv"):
+    if op in ("input", "data", "recv", "ctor"):
         d = np.dtype(nd.get("dtype", "int64"))
+    elif op in ("bcast", "call"):
+        d = np.dtype(spec_dtype(nodes, nd["args"][0], memo))
     elif op in ("add", "sub", "mul"):
         d = np.result_type(spec_dtype(nodes, nd["a"], memo), spec_dtype(nodes, nd["b"], memo))
     elif op in ("addc", "mulc", "alias"):
@@ -87,6 +90,8 @@ def spec_is_vec(nodes, i, n):
         return list(nd.get("shape", [n])) == [n]
     if op == "kind":
         return nd["kind"] in VEC_KINDS
+    if op == "ctor":
+        return nd["ctor"] != "eye"
     if op == "send":
         return spec_is_vec(nodes, nd["pass"], n)
     if op == "alias":
@@ -172,8 +177,10 @@ def _dummy_value(nodes, i, n):
         return _dummy_value(nodes, nd["pass"], n)
     if op in ("alias", "addc", "mulc", "add", "sub", "mul"):
         return _dummy_value(nodes, nd["a"], n)
-    if op == "flat":
+    if op in ("flat", "bcast", "call"):
         return np.zeros(n)
+    if op == "ctor":
+        return np.zeros((n, n)) if nd["ctor"] == "eye" else np.zeros(n)
     if op == "data":
         return np.zeros(len(nd["values"]))
     return np.zeros(n)
@@ -191,6 +198,8 @@ class _Builder:
         self.ncomm = 0
         self.used = [set() for _ in range(nranks)]   # node indices with a user
         self.kind_prob = 0.0
+        self.ctor_prob = 0.0
+        self.scalar = False
 
     def add(self, r, node, mag):
         self.ranks[r]["nodes"].append(node)
@@ -216,10 +225,43 @@ class _Builder:
             return self.rng.choice(p[-3:])
         return self.rng.choice(p)
 
+    def ctor_node(self, r, like=None, ctor=None):
+        """a node WITHOUT array operands: zeros / ones / full / arange (/ eye)"""
+        rng = self.rng
+        ctor = ctor or rng.choice(["zeros", "ones", "full", "arange"] if not self.scalar else ["zeros", "ones", "full"])
+        dt = self.dtype(r, like) if like is not None else rng.choice(DTYPES)
+        nd = {"op": "ctor", "ctor": ctor}
+        if dt != "int64":
+            nd["dtype"] = dt
+        if ctor == "full":
+            nd["c"] = rng.choice([-2, 2, 3])
+        if rng.random() < 0.2:
+            nd["stored"] = True
+        return self.add(r, nd, {"zeros": 1, "ones": 1, "full": 3, "arange": max(self.n, 1), "eye": 1}[ctor])
+
     def compute(self, r, depth=1):
         """add a random arithmetic node on rank r; returns its index"""
         rng = self.rng
         a = self.pick(r)
+        if self.ctor_prob and rng.random() < self.ctor_prob:
+            # a constructor without operands joins the computation (as operand or on its own)
+            c = self.ctor_node(r, like=a if rng.random() < 0.7 else None)
+            if rng.random() < 0.3:
+                return c
+            node = {"op": rng.choice(["add", "sub", "mul"]), "a": a, "b": c}
+            if rng.random() < 0.5:
+                node["a"], node["b"] = node["b"], node["a"]
+            m = self.mag[r][a] * max(self.mag[r][c], 1) + self.mag[r][c]
+            if m <= (1 << 18):
+                return self.add(r, node, m)
+        if self.kind_prob and rng.random() < self.kind_prob / 2:
+            # a high-level node consumes local / received data (and stays on this rank)
+            k = self.kind_node(r, a, stored=rng.random() < 0.2)
+            nodes = self.ranks[r]["nodes"]
+            if not spec_is_vec(nodes, k, self.n):
+                shape = list(np.shape(_dummy_value(nodes, k, self.n)))
+                k = self.add(r, {"op": "bcast" if shape == [] else "flat", "args": [k]}, self.mag[r][k])
+            return k
         op = rng.choice(["add", "sub", "addc", "mulc", "add", "mul"])
         if op in ("add", "sub", "mul"):
             b = self.pick(r, prefer_recent=False)
@@ -264,7 +306,10 @@ class _Builder:
             pas = data
         else:
             pas = self.pick(src, prefer_recent=False)
-        if self.kind_prob and rng.random() < self.kind_prob:
+        if self.ctor_prob and rng.random() < self.ctor_prob / 2:
+            # the send buffer is a constructor without operands
+            data = self.ctor_node(src, ctor=None if (self.scalar or self.n == 0 or rng.random() < 0.6) else "eye")
+        elif self.kind_prob and rng.random() < self.kind_prob:
             # the send buffer itself is a high-level node ("bare" payload)
             data = self.kind_node(src, data, stored=rng.random() < 0.3)
         h = self.add(src, {"op": "send", "data": data, "dst": dst, "tag": tag, "pass": pas},
@@ -281,7 +326,7 @@ class _Builder:
             rnode["stored"] = True
         v = self.add(dst, rnode, self.mag[src][data])
         if shape != [self.n]:
-            v = self.add(dst, {"op": "flat", "args": [v]}, self.mag[src][data])
+            v = self.add(dst, {"op": "bcast" if shape == [] else "flat", "args": [v]}, self.mag[src][data])
         self.ncomm += 1
         return h, v
 
@@ -289,7 +334,11 @@ class _Builder:
         """a high-level node (Concatenate, Stack, Reshape, …) over vector `a` of rank r"""
         rng = self.rng
         kind = kind or rng.choice(KINDS)
-        if kind == "adv_index":
+        if kind == "where" and np.dtype(self.dtype(r, a)).kind == "c":
+            kind = "roll"
+        if kind == "adv_index" and rng.random() < 0.4:
+            b = self.add(r, {"op": "ctor", "ctor": "arange"}, max(self.n, 1))      # constructed index array
+        elif kind == "adv_index":
             perm = list(range(self.n))
             rng.shuffle(perm)
             b = self.add(r, {"op": "data", "values": perm}, self.n)
@@ -301,9 +350,12 @@ class _Builder:
             m = m * self.mag[r][b]
         elif kind == "index_lambda":
             m = m + self.mag[r][b]
+        elif kind == "sum":
+            m = m * max(self.n, 1)
         if m > MAG_LIMIT or (self.dtype(r, a) == "float32" and m > (1 << 20)):
             kind, b, m = "roll", a, self.mag[r][a]
-        node = {"op": "kind", "kind": kind, "args": [a, b] if kind not in ("reshape", "roll", "basic_index") else [a]}
+        node = {"op": "kind", "kind": kind,
+                "args": [a, b] if kind not in ("reshape", "roll", "basic_index", "sum", "pad") else [a]}
         if stored:
             node["stored"] = True
         return self.add(r, node, m)
@@ -380,6 +432,8 @@ def generate(seed: int, index: int, profile: str = "default") -> dict:
     b = _Builder(rng, nranks, n, tagstyle)
     dstyle = rng.choice(["int", "int", "mixed", "mixed", "float64", "complex128", "float32"])
     b.kind_prob = 0.0 if scalar else rng.choice([0.0, 0.0, 0.3, 0.6])
+    b.ctor_prob = rng.choice([0.0, 0.15, 0.3])
+    b.scalar = scalar
     for r in range(nranks):
         for nm in rng.choice([["x"], ["x", "y"]]):
             nd = {"op": "input", "name": nm}
@@ -526,8 +580,10 @@ def node_key(rk, i, memo=None):
         k = ("input", nd["name"], st)
     elif op == "data":
         k = ("data", i, st)          # data wrappers are compared by identity of their buffer
-    elif op in ("kind", "flat"):
+    elif op in ("kind", "flat", "bcast", "call"):
         k = (op, nd.get("kind"), tuple(node_key(rk, c, memo) for c in nd["args"]), i if st else False)
+    elif op == "ctor":
+        k = ("ctor", nd["ctor"], nd.get("dtype", "int64"), nd.get("c", 2), i if st else False)
     elif op == "recv":
         k = ("recv", nd["src"], nd["tag"], nd.get("variant", 0), st, nd.get("dtype", "int64"),
              tuple(nd.get("shape", ())))
@@ -739,7 +795,30 @@ def kind_value(kind, args, n):
         return np.einsum("i,i->i", a, b)
     if kind == "index_lambda":
         return a + b
+    if kind == "sum":
+        return np.sum(a).astype(a.dtype)          # pytato keeps the operand dtype
+    if kind == "where":
+        return np.where(a > b, a, b)
+    if kind == "pad":
+        return np.pad(a, 1)
     raise ValueError(kind)
+
+
+def ctor_value(nd, n, scalar=False):
+    dt = np.dtype(nd.get("dtype", "int64"))
+    shape = () if scalar else (n,)
+    c = nd["ctor"]
+    if c == "zeros":
+        return np.zeros(shape, dt)
+    if c == "ones":
+        return np.ones(shape, dt)
+    if c == "full":
+        return np.full(shape, nd.get("c", 2), dt)
+    if c == "arange":
+        return np.arange(n, dtype=dt)
+    if c == "eye":
+        return np.eye(n, dtype=dt)
+    raise ValueError(c)
 
 
 def input_args(spec, rank):
@@ -775,6 +854,13 @@ def reference(spec, with_nodes=False):
             v = kind_value(nd["kind"], [ev(r, c) for c in nd["args"]], spec["n"])
         elif op == "flat":
             v = ev(r, nd["args"][0]).reshape(-1)[:spec["n"]]
+        elif op == "call":
+            v = ev(r, nd["args"][0]) * 2
+        elif op == "bcast":
+            a0 = ev(r, nd["args"][0])
+            v = np.zeros(spec["n"], a0.dtype) + a0
+        elif op == "ctor":
+            v = ctor_value(nd, spec["n"], bool(spec.get("scalar")))
         elif op == "recv":
             src = nd["src"]
             if not (0 <= src < spec["nranks"]):
@@ -905,7 +991,17 @@ def _build_kind(pt, kind, args, n):
         return pt.einsum("i,i->i", a, b)
     if kind == "index_lambda":
         return a + b
+    if kind == "sum":
+        return pt.sum(a)
+    if kind == "where":
+        return pt.where(pt.greater(a, b), a, b)
+    if kind == "pad":
+        return pt.pad(a, 1)
     raise ValueError(kind)
+
+
+def _doubler(a):
+    return 2 * a
 
 
 def build(spec, rank):
@@ -930,6 +1026,16 @@ def build(spec, rank):
             v = _build_kind(pt, nd["kind"], [vals[c] for c in nd["args"]], n)
         elif op == "flat":
             v = vals[nd["args"][0]].reshape(-1)[:n]
+        elif op == "call":
+            v = pt.trace_call(_doubler, vals[nd["args"][0]])
+        elif op == "bcast":
+            v = pt.zeros((n,), vals[nd["args"][0]].dtype) + vals[nd["args"][0]]
+        elif op == "ctor":
+            dt_ = np.dtype(nd.get("dtype", "int64"))
+            c_ = nd["ctor"]
+            v = (pt.zeros(vshape, dt_) if c_ == "zeros" else pt.ones(vshape, dt_) if c_ == "ones"
+                 else pt.full(vshape, nd.get("c", 2), dt_) if c_ == "full"
+                 else pt.arange(n, dtype=dt_) if c_ == "arange" else pt.eye(n, dtype=dt_))
         elif op == "recv":
             extra = frozenset()
             if nd.get("variant", 0):
@@ -955,7 +1061,7 @@ def build(spec, rank):
             raise ValueError(op)
         if nd.get("stored") and op not in ("alias",):
             v = v.tagged(ImplStored())
-            if op in ("add", "sub", "mul", "addc", "mulc", "kind", "flat"):
+            if op in ("add", "sub", "mul", "addc", "mulc", "kind", "flat", "bcast", "ctor"):
                 v = v.tagged(_nodeid_class()(len(vals)))
         vals.append(v)
     res = pt.make_dict_of_named_arrays({nm: vals[o] for nm, o in rk["outputs"]})
@@ -1524,3 +1630,40 @@ def sametag_family():
                        "seed": 0, "index": idx, "profile": "sametag",
                        "family": {"nranks": nranks, "tags": style, "both_directions": both_dirs}}
                 idx += 1
+
+
+def call_family():
+    """Programs with a traced function call (`trace_call`) around communication.  The
+    partitioner does not support functions: the refusal must be explicit (NotImplementedError)
+    and — when every rank uses a call — identical on all ranks.  The asymmetric variants (a call
+    on one rank only) make that rank raise before the first collective while the others wait."""
+    idx = 0
+    for symmetric in (True, False):
+        for where in ("payload", "consumer", "bystander"):
+            ranks = []
+            for r in range(2):
+                nodes = [{"op": "input", "name": "x"}]
+                use_call = symmetric or r == 0
+                other = 1 - r
+                nodes.append({"op": "recv", "src": other, "tag": other, "variant": 0})
+                rv = 1
+                data = 0
+                if use_call and where == "payload":
+                    nodes.append({"op": "call", "args": [0]})
+                    data = len(nodes) - 1
+                nodes.append({"op": "send", "data": data, "dst": other, "tag": r, "pass": 0})
+                hold = len(nodes) - 1
+                cons = rv
+                if use_call and where == "consumer":
+                    nodes.append({"op": "call", "args": [rv]})
+                    cons = len(nodes) - 1
+                nodes.append({"op": "add", "a": hold, "b": cons})
+                outs = [["res", len(nodes) - 1]]
+                if use_call and where == "bystander":
+                    nodes.append({"op": "call", "args": [0]})
+                    outs.append(["side", len(nodes) - 1])
+                ranks.append({"nodes": nodes, "outputs": outs})
+            yield {"nranks": 2, "n": 2, "topology": "calls", "tags": [["i", 100], ["i", 101]], "ranks": ranks,
+                   "seed": 0, "index": idx, "profile": "calls",
+                   "family": {"symmetric": symmetric, "call_is": where}, "expects_refusal": "NotImplementedError"}
+            idx += 1
